@@ -56,6 +56,27 @@ def decl_at(path, line):
     return name
 
 
+def restore_committed_generated():
+    """Write the COMMITTED version of every Generated/*.lean file back (the tables of the unchanged tree the proofs were last
+    checked against). Used only to keep the search for a failing input going when the regenerated files no longer build."""
+    rel = os.path.relpath(os.path.join(paths.LEAN, "LyModel", "Generated"), paths.VERIF)
+    ls = subprocess.run(["git", "-C", paths.VERIF, "ls-files", rel], stdout=subprocess.PIPE, text=True).stdout.split()
+    restored = []
+    for f in ls:
+        want = subprocess.run(["git", "-C", paths.VERIF, "show", "HEAD:" + f], stdout=subprocess.PIPE, text=True)
+        if want.returncode != 0:
+            continue
+        full = os.path.join(paths.VERIF, f)
+        try:
+            have = open(full).read()
+        except OSError:
+            have = None
+        if have != want.stdout:
+            open(full, "w").write(want.stdout)
+            restored.append(os.path.basename(f))
+    return restored
+
+
 def driver():
     with LeanLock():
         rc, out = _run(["lake", "build", "lydrv"])
